@@ -203,4 +203,465 @@ theorem encodeOne_spec : StepSpec encodeOne where
     intro h t hh
     exact (go_none (h :: t) selector 0).mpr (fun r hr => canPack_head_big h t hh r hr)
 
+theorem decodeWords_cons (w : Nat) (ws : List Nat) : decodeWords (w :: ws) = unpackWord w ++ decodeWords ws := by
+  simp [decodeWords]
+
+theorem decodeWords_append (a b : List Nat) : decodeWords (a ++ b) = decodeWords a ++ decodeWords b := by
+  simp [decodeWords]
+
+/-- **EncodeAll accepts every input whose values fit in 60 bits, and the words decode back to it.** -/
+theorem encodeAllWith_ok (step : List Nat → Option (Nat × Nat)) (hs : StepSpec step) :
+    ∀ (fuel : Nat) (src : List Nat), src.length ≤ fuel → (∀ v ∈ src, v ≤ MaxValue) →
+      ∃ ws, encodeAllWith step fuel src = some ws ∧ decodeWords ws = src ∧ ∀ w ∈ ws, w < W := by
+  intro fuel
+  induction fuel with
+  | zero =>
+    intro src hlen _
+    have : src = [] := List.length_eq_zero_iff.mp (by omega)
+    subst this
+    exact ⟨[], by simp [encodeAllWith], rfl, by simp⟩
+  | succ f ih =>
+    intro src hlen hall
+    cases src with
+    | nil => exact ⟨[], by simp [encodeAllWith], rfl, by simp⟩
+    | cons h t =>
+      simp only [encodeAllWith, List.isEmpty_cons, Bool.false_eq_true, if_false]
+      cases hst : step (h :: t) with
+      | none =>
+        have := hs.none_head h t hst
+        have := hall h List.mem_cons_self
+        omega
+      | some p =>
+        obtain ⟨w, n⟩ := p
+        obtain ⟨h1, h2, h3, h4, h5⟩ := hs.ok _ _ _ hst
+        have hdl : ((h :: t).drop n).length ≤ f := by simp at hlen ⊢; omega
+        obtain ⟨ws, e1, e2, e3⟩ := ih ((h :: t).drop n) hdl (fun v hv => hall v (List.mem_of_mem_drop hv))
+        simp only [e1]
+        refine ⟨w :: ws, rfl, ?_, ?_⟩
+        · rw [decodeWords_cons, h4, e2, List.take_append_drop]
+        · intro x hx
+          rcases List.mem_cons.mp hx with rfl | hx'
+          · exact h3
+          · exact e3 x hx'
+
+/-- **EncodeAll rejects every input that contains a value above 2^60-1.** -/
+theorem encodeAllWith_reject (step : List Nat → Option (Nat × Nat)) (hs : StepSpec step) :
+    ∀ (fuel : Nat) (src : List Nat), (∃ v ∈ src, v > MaxValue) → encodeAllWith step fuel src = none := by
+  intro fuel
+  induction fuel with
+  | zero =>
+    intro src ⟨v, hv, _⟩
+    cases src with
+    | nil => simp at hv
+    | cons h t => simp [encodeAllWith]
+  | succ f ih =>
+    intro src ⟨v, hv, hbig⟩
+    cases src with
+    | nil => simp at hv
+    | cons h t =>
+      simp only [encodeAllWith, List.isEmpty_cons, Bool.false_eq_true, if_false]
+      cases hst : step (h :: t) with
+      | none => rfl
+      | some p =>
+        obtain ⟨w, n⟩ := p
+        obtain ⟨h1, h2, h3, h4, h5⟩ := hs.ok _ _ _ hst
+        have hin : v ∈ (h :: t).drop n := by
+          have : v ∈ (h :: t).take n ++ (h :: t).drop n := by rw [List.take_append_drop]; exact hv
+          rcases List.mem_append.mp this with h' | h'
+          · have := h5 v h'; omega
+          · exact h'
+        simp only [ih _ ⟨v, hin, hbig⟩]
+
+/-! ### influxdb's EncodeAll step -/
+
+theorem numBits_eq_selector : ∀ k, numBits[k]? = selector[2 + k]? := by
+  intro k
+  have : numBits = selector.drop 2 := by decide
+  rw [this, List.getElem?_drop]
+
+theorem numBits_bits_pos : ∀ r ∈ numBits, r.2 ≠ 0 := by decide
+
+theorem codesLoop_ok (src : List Nat) : ∀ (rows : List (Nat × Nat)) (code : Nat),
+    (∀ k, rows[k]? = selector[code + 2 + k]?) → ∀ w n, codesLoop src rows code = some (w, n) → StepOk src w n := by
+  intro rows
+  induction rows with
+  | nil => intro code _ w n h; simp [codesLoop] at h
+  | cons r rest ih =>
+    obtain ⟨rn, rbits⟩ := r
+    intro code hrows w n h
+    have hnext : ∀ k, rest[k]? = selector[code + 1 + 2 + k]? := fun k => by
+      have := hrows (k + 1)
+      simp only [List.getElem?_cons_succ] at this
+      rw [this]; congr 1; omega
+    simp only [codesLoop] at h
+    split at h
+    · exact ih (code + 1) hnext w n h
+    · next hlen =>
+      split at h
+      · next hall =>
+        simp only [Option.some.injEq, Prod.mk.injEq] at h
+        obtain ⟨hw, hn⟩ := h
+        subst hn
+        have hsel : selector[code + 2]? = some (rn, rbits) := by have := hrows 0; simpa using this.symm
+        have hmem : (rn, rbits) ∈ selector := List.mem_of_getElem? hsel
+        have ⟨hnb, hn1⟩ := selector_rows _ hmem
+        simp only at hnb hn1
+        have hb0 : rbits ≠ 0 := by
+          have h1 : numBits[code]? = some (rn, rbits) := by
+            rw [numBits_eq_selector, Nat.add_comm]; exact hsel
+          exact numBits_bits_pos _ (List.mem_of_getElem? h1)
+        have hlt : ∀ v ∈ src.take rn, v < 2 ^ rbits := by
+          intro v hv; have := List.all_eq_true.mp hall v hv; simpa using this
+        have htl : (src.take rn).length = rn := by simp; omega
+        obtain ⟨p1, p2⟩ := unpackWord_packWord (code + 2) rn rbits hsel (src.take rn) htl (by rw [if_neg hb0]; exact hlt)
+        simp only [packWord, hb0, if_false] at p1 p2
+        rw [hw] at p1 p2
+        refine ⟨hn1, by omega, p1, p2, ?_⟩
+        intro v hv
+        rw [MaxValue_eq]
+        have := hlt v hv
+        have hle : 2 ^ rbits ≤ 2 ^ 60 := Nat.pow_le_pow_right (by omega) (by
+          have : 1 * rbits ≤ rn * rbits := Nat.mul_le_mul_right _ hn1
+          omega)
+        omega
+      · exact ih (code + 1) hnext w n h
+
+theorem codesLoop_none (src : List Nat) : ∀ (rows : List (Nat × Nat)) (code : Nat),
+    codesLoop src rows code = none ↔
+      ∀ r ∈ rows, r.1 > src.length ∨ (src.take r.1).all (fun v => decide (v < 2 ^ r.2)) = false := by
+  intro rows
+  induction rows with
+  | nil => intro code; simp [codesLoop]
+  | cons r rest ih =>
+    obtain ⟨rn, rbits⟩ := r
+    intro code
+    simp only [codesLoop]
+    split
+    · next h =>
+      rw [ih (code + 1)]
+      constructor
+      · intro hr r hmem
+        rcases List.mem_cons.mp hmem with rfl | hm
+        · exact Or.inl h
+        · exact hr r hm
+      · intro hr r hmem; exact hr r (List.mem_cons_of_mem _ hmem)
+    · next h =>
+      split
+      · next h2 =>
+        constructor
+        · intro hc; simp at hc
+        · intro hall
+          rcases hall (rn, rbits) List.mem_cons_self with a | b
+          · exact absurd a h
+          · simp only at b; rw [h2] at b; simp at b
+      · next h2 =>
+        rw [ih (code + 1)]
+        constructor
+        · intro hr r hmem
+          rcases List.mem_cons.mp hmem with rfl | hm
+          · right; simpa using h2
+          · exact hr r hm
+        · intro hr r hmem; exact hr r (List.mem_cons_of_mem _ hmem)
+
+theorem leadingOnes_le (l : List Nat) (lim : Nat) : leadingOnes l lim ≤ lim ∧ leadingOnes l lim ≤ l.length := by
+  induction l generalizing lim with
+  | nil => simp [leadingOnes]
+  | cons v vs ih =>
+    cases lim with
+    | zero => simp [leadingOnes]
+    | succ k =>
+      simp only [leadingOnes]
+      split
+      · have := ih k; simp; omega
+      · simp
+
+theorem leadingOnes_take (l : List Nat) (lim : Nat) : ∀ v ∈ l.take (leadingOnes l lim), v = 1 := by
+  induction l generalizing lim with
+  | nil => simp [leadingOnes]
+  | cons v vs ih =>
+    cases lim with
+    | zero => simp [leadingOnes]
+    | succ k =>
+      simp only [leadingOnes]
+      split
+      · next h1 =>
+        intro x hx
+        rw [List.take_succ_cons] at hx
+        rcases List.mem_cons.mp hx with rfl | hx'
+        · exact h1
+        · exact ih k x hx'
+      · simp
+
+theorem ones_stepOk (src : List Nat) (sel n : Nat) (hsel : selector[sel]? = some (n, 0)) (hn : n ≤ src.length)
+    (hones : ∀ v ∈ src.take n, v = 1) : StepOk src (sel * 2 ^ 60) n := by
+  have hmem : (n, 0) ∈ selector := List.mem_of_getElem? hsel
+  have ⟨_, hn1⟩ := selector_rows _ hmem
+  have htl : (src.take n).length = n := by simp; omega
+  obtain ⟨p1, p2⟩ := unpackWord_packWord sel n 0 hsel (src.take n) htl (by simpa using hones)
+  simp only [packWord, if_true] at p1 p2
+  refine ⟨hn1, hn, p1, p2, ?_⟩
+  intro v hv; rw [hones v hv, MaxValue_eq]; omega
+
+theorem mem_take_of_le {α} (l : List α) (a b : Nat) (h : a ≤ b) (x : α) (hx : x ∈ l.take a) : x ∈ l.take b := by
+  have : l.take a = (l.take b).take a := by rw [List.take_take]; congr 1; omega
+  rw [this] at hx; exact List.mem_of_mem_take hx
+
+theorem encodeStepI_spec : StepSpec encodeStepI where
+  ok := by
+    intro src w n h
+    unfold encodeStepI at h
+    have hcodes : ∀ w n, codesLoop src numBits 0 = some (w, n) → StepOk src w n :=
+      codesLoop_ok src numBits 0 (fun k => by rw [numBits_eq_selector])
+    by_cases hlen : src.length ≥ 120
+    · rw [if_pos hlen] at h
+      simp only at h
+      have hlimle : (if src.length ≥ 240 then 240 else 120) ≤ src.length := by split <;> omega
+      generalize (if src.length ≥ 240 then 240 else 120) = lim at h hlimle
+      have hl := leadingOnes_le src lim
+      by_cases hk : leadingOnes src lim = 240
+      · rw [if_pos hk] at h
+        simp only [Option.some.injEq, Prod.mk.injEq] at h
+        obtain ⟨rfl, rfl⟩ := h
+        have := ones_stepOk src 0 240 (by decide) (by omega)
+          (fun v hv => by rw [← hk] at hv; exact leadingOnes_take src _ v hv)
+        rw [Nat.zero_mul] at this; exact this
+      · rw [if_neg hk] at h
+        by_cases hk2 : leadingOnes src lim ≥ 120
+        · rw [if_pos hk2] at h
+          simp only [Option.some.injEq, Prod.mk.injEq] at h
+          obtain ⟨rfl, rfl⟩ := h
+          have := ones_stepOk src 1 120 (by decide) (by omega)
+            (fun v hv => leadingOnes_take src lim v (mem_take_of_le src 120 _ hk2 v hv))
+          rw [Nat.one_mul] at this; exact this
+        · rw [if_neg hk2] at h
+          exact hcodes w n h
+    · rw [if_neg hlen] at h
+      exact hcodes w n h
+  none_head := by
+    intro h t hnone
+    unfold encodeStepI at hnone
+    have key : codesLoop (h :: t) numBits 0 = none → h > MaxValue := by
+      intro hc
+      have := (codesLoop_none (h :: t) numBits 0).mp hc (1, 60) (by decide)
+      simp at this
+      rw [MaxValue_eq]; omega
+    by_cases hlen : (h :: t).length ≥ 120
+    · rw [if_pos hlen] at hnone
+      simp only at hnone
+      generalize (if (h :: t).length ≥ 240 then 240 else 120) = lim at hnone
+      by_cases hk : leadingOnes (h :: t) lim = 240
+      · rw [if_pos hk] at hnone; simp at hnone
+      · rw [if_neg hk] at hnone
+        by_cases hk2 : leadingOnes (h :: t) lim ≥ 120
+        · rw [if_pos hk2] at hnone; simp at hnone
+        · rw [if_neg hk2] at hnone; exact key hnone
+    · rw [if_neg hlen] at hnone
+      exact key hnone
+  reject := by
+    intro h t hh
+    have hne : h ≠ 1 := by rw [MaxValue_eq] at hh; omega
+    have key : codesLoop (h :: t) numBits 0 = none := by
+      apply (codesLoop_none (h :: t) numBits 0).mpr
+      intro r hr
+      by_cases hlen : r.1 > (h :: t).length
+      · exact Or.inl hlen
+      · right
+        have hr' : r ∈ selector := by
+          have : numBits = selector.drop 2 := by decide
+          rw [this] at hr; exact List.mem_of_mem_drop hr
+        have ⟨hnb, hn1⟩ := selector_rows _ hr'
+        obtain ⟨k, hk⟩ : ∃ k, r.1 = k + 1 := ⟨r.1 - 1, by omega⟩
+        rw [hk, List.take_succ_cons, List.all_cons]
+        have hle : 2 ^ r.2 ≤ 2 ^ 60 := Nat.pow_le_pow_right (by omega) (by
+          have : 1 * r.2 ≤ r.1 * r.2 := Nat.mul_le_mul_right _ hn1
+          omega)
+        have : decide (h < 2 ^ r.2) = false := by rw [MaxValue_eq] at hh; simp; omega
+        rw [this]; rfl
+    unfold encodeStepI
+    have hl0 : ∀ lim, leadingOnes (h :: t) lim = 0 := by
+      intro lim; cases lim <;> simp [leadingOnes, hne]
+    split
+    · simp only [hl0]
+      simpa using key
+    · exact key
+
+/-- both `EncodeAll`s: accept + decode back -/
+theorem encodeAllJ_ok (src : List Nat) (h : ∀ v ∈ src, v ≤ MaxValue) :
+    ∃ ws, encodeAllJ src.length src = some ws ∧ decodeWords ws = src ∧ ∀ w ∈ ws, w < W :=
+  encodeAllWith_ok encodeOne encodeOne_spec _ src (Nat.le_refl _) h
+theorem encodeAllI_ok (src : List Nat) (h : ∀ v ∈ src, v ≤ MaxValue) :
+    ∃ ws, encodeAllI src.length src = some ws ∧ decodeWords ws = src ∧ ∀ w ∈ ws, w < W :=
+  encodeAllWith_ok encodeStepI encodeStepI_spec _ src (Nat.le_refl _) h
+theorem encodeAllJ_reject (src : List Nat) (h : ∃ v ∈ src, v > MaxValue) : encodeAllJ src.length src = none :=
+  encodeAllWith_reject encodeOne encodeOne_spec _ src h
+theorem encodeAllI_reject (src : List Nat) (h : ∃ v ∈ src, v > MaxValue) : encodeAllI src.length src = none :=
+  encodeAllWith_reject encodeStepI encodeStepI_spec _ src h
+
+/-! ### the streaming encoder -/
+
+theorem decodeWords_snoc (out : List Nat) (w : Nat) : decodeWords (out ++ [w]) = decodeWords out ++ unpackWord w := by
+  simp [decodeWords]
+
+def Stream.Inv (s : Stream) (written : List Nat) : Prop :=
+  decodeWords s.out ++ s.pending = written ∧ (∀ w ∈ s.out, w < W) ∧ s.pending.length ≤ 240
+
+theorem encodeOne_some_of_good (l : List Nat) (hne : l ≠ []) (hall : ∀ v ∈ l, v ≤ MaxValue) :
+    ∃ w n, encodeOne l = some (w, n) ∧ StepOk l w n := by
+  cases l with
+  | nil => exact absurd rfl hne
+  | cons h t =>
+    cases he : encodeOne (h :: t) with
+    | none =>
+      have := encodeOne_spec.none_head h t he
+      have := hall h List.mem_cons_self
+      omega
+    | some p => exact ⟨p.1, p.2, rfl, encodeOne_spec.ok _ _ _ he⟩
+
+theorem Stream.write_ok (s : Stream) (written : List Nat) (v : Nat) (hinv : s.Inv written)
+    (hall : ∀ x ∈ written, x ≤ MaxValue) :
+    ∃ s', s.write v = some s' ∧ s'.Inv (written ++ [v]) := by
+  obtain ⟨h1, h2, h3⟩ := hinv
+  unfold Stream.write
+  split
+  · next hfull =>
+    have hne : s.pending ≠ [] := by intro h; rw [h] at hfull; simp at hfull
+    have hgood : ∀ x ∈ s.pending, x ≤ MaxValue := fun x hx => hall x (by rw [← h1]; exact List.mem_append_right _ hx)
+    obtain ⟨w, n, he, k1, k2, k3, k4, k5⟩ := encodeOne_some_of_good s.pending hne hgood
+    rw [he]
+    refine ⟨_, rfl, ?_, ?_, ?_⟩
+    · show decodeWords (s.out ++ [w]) ++ (s.pending.drop n ++ [v]) = written ++ [v]
+      rw [decodeWords_snoc, k4, ← h1]
+      simp only [List.append_assoc]
+      rw [← List.append_assoc (List.take n s.pending), List.take_append_drop]
+    · intro x hx
+      rcases List.mem_append.mp hx with h | h
+      · exact h2 x h
+      · simp at h; rw [h]; exact k3
+    · simp; omega
+  · next hnot =>
+    refine ⟨_, rfl, ?_, h2, ?_⟩
+    · simp only; rw [← h1, List.append_assoc]
+    · simp; omega
+
+theorem Stream.fold_ok (vs : List Nat) : ∀ (s : Stream) (written : List Nat), s.Inv written →
+    (∀ x ∈ written ++ vs, x ≤ MaxValue) → ∃ s', vs.foldlM Stream.write s = some s' ∧ s'.Inv (written ++ vs) := by
+  induction vs with
+  | nil => intro s written hinv _; exact ⟨s, rfl, by simpa using hinv⟩
+  | cons v rest ih =>
+    intro s written hinv hall
+    obtain ⟨s1, e1, i1⟩ := s.write_ok written v hinv (fun x hx => hall x (List.mem_append_left _ hx))
+    obtain ⟨s2, e2, i2⟩ := ih s1 (written ++ [v]) i1 (by simpa using hall)
+    refine ⟨s2, ?_, by simpa using i2⟩
+    rw [List.foldlM_cons, e1]; exact e2
+
+theorem Stream.drain_ok : ∀ (fuel : Nat) (s : Stream) (written : List Nat), s.pending.length ≤ fuel → s.Inv written →
+    (∀ x ∈ written, x ≤ MaxValue) → ∃ ws, s.drain fuel = some ws ∧ decodeWords ws = written ∧ ∀ w ∈ ws, w < W := by
+  intro fuel
+  induction fuel with
+  | zero =>
+    intro s written hlen ⟨h1, h2, _⟩ _
+    have : s.pending = [] := List.length_eq_zero_iff.mp (by omega)
+    refine ⟨s.out, by simp [Stream.drain, this], by rw [← h1, this, List.append_nil], h2⟩
+  | succ f ih =>
+    intro s written hlen hinv hall
+    obtain ⟨h1, h2, h3⟩ := hinv
+    by_cases hp : s.pending = []
+    · refine ⟨s.out, by simp [Stream.drain, hp], by rw [← h1, hp, List.append_nil], h2⟩
+    · have hgood : ∀ x ∈ s.pending, x ≤ MaxValue := fun x hx => hall x (by rw [← h1]; exact List.mem_append_right _ hx)
+      obtain ⟨w, n, he, k1, k2, k3, k4, k5⟩ := encodeOne_some_of_good s.pending hp hgood
+      have hne : s.pending.isEmpty = false := by simpa using hp
+      simp only [Stream.drain, hne, Bool.false_eq_true, if_false, he]
+      apply ih
+      · simp; omega
+      · refine ⟨?_, ?_, by simp; omega⟩
+        · show decodeWords (s.out ++ [w]) ++ s.pending.drop n = written
+          rw [decodeWords_snoc, k4, ← h1]
+          simp only [List.append_assoc]
+          rw [List.take_append_drop]
+        · intro x hx
+          rcases List.mem_append.mp hx with h | h
+          · exact h2 x h
+          · simp at h; rw [h]; exact k3
+      · exact hall
+
+/-- **the streaming encoder's words decode back to what was written** -/
+theorem encodeStream_ok (vs : List Nat) (h : ∀ v ∈ vs, v ≤ MaxValue) :
+    ∃ ws, encodeStream vs = some ws ∧ decodeWords ws = vs ∧ ∀ w ∈ ws, w < W := by
+  obtain ⟨s, e, i⟩ := Stream.fold_ok vs {} [] ⟨rfl, by simp, by simp⟩ (by simpa using h)
+  unfold encodeStream
+  rw [e]
+  simp only [List.nil_append] at i
+  exact Stream.drain_ok _ s vs (by omega) i h
+
+def Stream.Bad (s : Stream) : Prop := ∃ v ∈ s.pending, v > MaxValue
+
+theorem Stream.drain_reject : ∀ (fuel : Nat) (s : Stream), s.Bad → s.drain fuel = none := by
+  intro fuel
+  induction fuel with
+  | zero =>
+    intro s ⟨v, hv, _⟩
+    have : s.pending.isEmpty = false := by cases hp : s.pending <;> simp_all
+    simp [Stream.drain, this]
+  | succ f ih =>
+    intro s ⟨v, hv, hbig⟩
+    have hne : s.pending.isEmpty = false := by cases hp : s.pending <;> simp_all
+    simp only [Stream.drain, hne, Bool.false_eq_true, if_false]
+    cases he : encodeOne s.pending with
+    | none => rfl
+    | some p =>
+      obtain ⟨w, n⟩ := p
+      obtain ⟨k1, k2, k3, k4, k5⟩ := encodeOne_spec.ok _ _ _ he
+      simp only
+      apply ih
+      refine ⟨v, ?_, hbig⟩
+      have : v ∈ s.pending.take n ++ s.pending.drop n := by rw [List.take_append_drop]; exact hv
+      rcases List.mem_append.mp this with h' | h'
+      · have := k5 v h'; omega
+      · exact h'
+
+theorem Stream.fold_reject (vs : List Nat) : ∀ (s : Stream), (∃ v ∈ s.pending ++ vs, v > MaxValue) →
+    match vs.foldlM Stream.write s with
+    | none => True
+    | some s' => s'.Bad := by
+  induction vs with
+  | nil => intro s h; simpa [Stream.Bad] using h
+  | cons x rest ih =>
+    intro s ⟨v, hv, hbig⟩
+    rw [List.foldlM_cons]
+    cases hw : s.write x with
+    | none => trivial
+    | some s1 =>
+      simp only [Option.bind_eq_bind, Option.bind_some]
+      apply ih
+      refine ⟨v, ?_, hbig⟩
+      unfold Stream.write at hw
+      split at hw
+      · cases he : encodeOne s.pending with
+        | none => rw [he] at hw; simp at hw
+        | some p =>
+          obtain ⟨w, n⟩ := p
+          rw [he] at hw
+          simp only [Option.some.injEq] at hw
+          obtain ⟨k1, k2, k3, k4, k5⟩ := encodeOne_spec.ok _ _ _ he
+          subst hw
+          simp only [List.append_assoc, List.singleton_append]
+          rcases List.mem_append.mp hv with h1 | h1
+          · have : v ∈ s.pending.take n ++ s.pending.drop n := by rw [List.take_append_drop]; exact h1
+            rcases List.mem_append.mp this with h' | h'
+            · have := k5 v h'; omega
+            · exact List.mem_append_left _ h'
+          · exact List.mem_append_right _ h1
+      · simp only [Option.some.injEq] at hw
+        subst hw
+        simp only [List.append_assoc, List.singleton_append]
+        exact hv
+
+/-- **the streaming encoder rejects an input containing a value above 2^60-1** -/
+theorem encodeStream_reject (vs : List Nat) (h : ∃ v ∈ vs, v > MaxValue) : encodeStream vs = none := by
+  have := Stream.fold_reject vs {} (by simpa using h)
+  unfold encodeStream
+  cases hf : vs.foldlM Stream.write ({} : Stream) with
+  | none => rfl
+  | some s => rw [hf] at this; exact Stream.drain_reject _ s this
+
 end Influx.Codec
